@@ -158,8 +158,11 @@ Proof. exact TextArcTotal.text_accepted_reserialize_no_panic. Qed.
    the Ok conclusion is conditional on A-codec - it describes the library for archives whose strings lie in the codec's
    image (to_shift_jis succeeds and gives these bytes); for other strings the library answers Err(EncodingFailed), which the
    model does not have.  No panic in either case (the theorem above and C05_text_serialize_no_panic). *)
-Theorem C05_text_serialize_total_on_encoded : forall kf m fmt e t, exists f, TextFormat.serialize kf m fmt e t = Ok f.
-Proof. exact TextTotal.text_serialize_ok. Qed.
+(* ... and on the image fitting the 32-bit sizes of the bin format: a text archive whose image would be 4 GiB or more is
+   rejected by BinArchive::serialize with an error (fix 524d15f, finding F25), in the model Err EOther - not a panic *)
+Theorem C05_text_serialize_total_on_encoded : forall kf m fmt e t,
+  (exists f, TextFormat.serialize kf m fmt e t = Ok f) \/ TextFormat.serialize kf m fmt e t = Err EOther.
+Proof. exact TextTotal.text_serialize_ok_or_too_large. Qed.
 Theorem C05_text_serialize_no_panic : forall kf m fmt e t k, TextFormat.serialize kf m fmt e t <> Panic k.
 Proof. exact TextTotal.text_serialize_no_panic. Qed.
 (* a bin header that declares more than the buffer holds (or a buffer without a header) is rejected by the text reader too *)
